@@ -241,7 +241,9 @@ func c19LoadAPI() *c19API {
 							}
 							api.types = append(api.types, t)
 						}
-					case token.VAR:
+					case token.VAR, token.CONST:
+						// exported constants are listed with the variables: a constant of a gate type hands its
+						// value (and, by slicing, non-constant values of that type) to the client
 						for _, sp := range x.Specs {
 							for _, n := range sp.(*ast.ValueSpec).Names {
 								if n.IsExported() {
